@@ -15,7 +15,7 @@ var sqlPlans = map[string]func(g *Gen, tier string) ([]SQLCase, map[string]int, 
 var dialectNames = []string{"sqlite", "sqlite3", "SQLite", "postgres", "postgresql", "pq", "Postgres", "mysql", "MySQL"}
 
 func (g *Gen) sqlFrame(nr, nc int) Frame {
-	names := []string{"id", "name", "score", "flag", "when", "note"}
+	names := []string{"id", "name", "score", "flag", "when", "note", "Email", "userID"}
 	kinds := []string{"int", "str", "f64", "bool", "time", "int64", "mixednil"}
 	cols := []Col{}
 	perm := g.r.Perm(len(names))
@@ -237,6 +237,11 @@ func planC12(g *Gen, tier string) ([]SQLCase, map[string]int, bool) {
 						cases = append(cases, SQLCase{Kind: "w", Tag: "cancel", W: &c})
 						stats["cancel"]++
 					}
+					// the existence query itself succeeds but its result cannot be fetched
+					qn := base
+					qn.Fault, qn.FaultNext = 2, true
+					cases = append(cases, SQLCase{Kind: "w", Tag: "fault-while-fetching-existence-result", W: &qn})
+					stats["fault-fetching"]++
 					nf := base
 					cases = append(cases, SQLCase{Kind: "w", Tag: "no-fault", W: &nf})
 					stats["no-fault"]++
@@ -352,7 +357,7 @@ func (g *Gen) valueFor(kind string, dateCol bool) Cell {
 	switch kind {
 	case "int":
 		if dateCol {
-			return IntCell("int64", []int64{0, 1600000000, -86400, 1700000000, 951782400}[g.r.Intn(5)])
+			return IntCell("int64", []int64{0, 1600000000, -86400, 1700000000, 951782400, 1600000000000, 20000000000000, 9007199254740993, -3000000000000}[g.r.Intn(9)])
 		}
 		return IntCell("int64", g.intVal(true))
 	case "float":
